@@ -80,7 +80,10 @@ func FindGrouping(n Node, name string, seen map[string]bool) *Grouping {
 			}
 		}
 		v = e.FieldByName("Include")
-		if v.IsValid() {
+		// A name that still has a prefix here names a grouping of another
+		// module. Do not hand it to the submodules: one whose belongs-to
+		// prefix happens to be that prefix would take it for its own.
+		if v.IsValid() && !strings.Contains(name, ":") {
 			for _, i := range v.Interface().([]*Include) {
 				if i.Module == nil {
 					// Not linked (yet): there is nothing to search.
